@@ -13,6 +13,28 @@ import (
 const maxExpressionTokens = 4096
 
 func ExpandAndEvaluate(expr []token, symbols map[string][]token) (int, error) {
+	// only the symbols the expression can reach matter; resolving all of
+	// them for every FOR count would make the cost of a count grow with
+	// the number of unrelated definitions
+	all := symbols
+	symbols = make(map[string][]token)
+	var collect func(toks []token)
+	collect = func(toks []token) {
+		for _, tok := range toks {
+			if tok.typ != tokText {
+				continue
+			}
+			if _, seen := symbols[tok.val]; seen {
+				continue
+			}
+			if val, ok := all[tok.val]; ok {
+				symbols[tok.val] = val
+				collect(val)
+			}
+		}
+	}
+	collect(expr)
+
 	graph := buildReferenceGraph(symbols)
 
 	cyclic, key := graphContainsCycle(graph)
